@@ -151,6 +151,16 @@ func runC14(c *core.Ctx) {
 		wrongCr := map[int]int{0: 4, 4: 0, 5: 0, 6: 0, 7: 0}[cr]
 		clen, _ := rm.CryptoLen(wrongCr)
 		badPK, _ := lib.CryptoKeyOf(wrongCr, r.Bytes(clen))
+		if kc != nil && goodPK != nil && goodSPK != nil && i%4 == 1 {
+			// a missing key: what the validator calls "key is required"
+			if v, err := keys_and_cert.NewKeysAndCert(kc, nil, m.Padding(), goodSPK); true {
+				c14Defect(c, "keys_and_cert.NewKeysAndCert", "crypto key missing (nil)", sh, err != nil || v == nil, "constructor returned a value")
+			}
+			if v, err := keys_and_cert.NewKeysAndCert(kc, goodPK, m.Padding(), nil); true {
+				c14Defect(c, "keys_and_cert.NewKeysAndCert", "signing key missing (nil)", sh, err != nil || v == nil, "constructor returned a value")
+			}
+			c14Defect(c, "keys_and_cert.KeysAndCert.Validate", "crypto key missing (nil)", sh, (&keys_and_cert.KeysAndCert{KeyCertificate: kc, Padding: m.Padding(), SigningPublic: goodSPK}).Validate() != nil, "validator accepted")
+		}
 		if kc != nil && goodPK != nil && badSPK != nil {
 			_, err := keys_and_cert.NewKeysAndCert(kc, goodPK, m.Padding(), badSPK)
 			c14Defect(c, "keys_and_cert.NewKeysAndCert", "signing key length does not match its type", sh, err != nil, "constructor accepted")
@@ -278,12 +288,17 @@ func runC14(c *core.Ctx) {
 		if i%5 == 0 {
 			m.Addrs = nil
 		}
+		if i%7 == 3 {
+			// boundary publication dates: the epoch itself (the all-zero Date), one millisecond later
+			m.Published = uint64(i/7) % 2
+		}
 		for j := range m.Addrs {
 			if len(m.Addrs[j].Style) == 0 {
 				m.Addrs[j].Style = []byte("SSU2")
 			}
 		}
 		sh["addrs"] = len(m.Addrs)
+		sh["published_zero"] = m.Published == 0
 		c.Eval(1)
 		ri, ok, err := lib.BuildRouterInfo(m, priv, i%2)
 		if !ok {
